@@ -548,6 +548,11 @@ def roundtrip_batch(ctx, drv, triangles, scratch, tag="rt", compressed=True):
         if not out.get("fileDecodeEq", False):
             ctx.disagree("Model.decode of the file written by to_binary = the triangle", case,
                          model=out.get("fileDecode"), impl=None)
+        if out.get("layoutDecodeEq") is not None:        # C06's driver only
+            ctx.count(f"{tag}/layout-decoder checked")
+            if out["layoutDecodeEq"] is False:
+                ctx.fail("the decoder written strictly from the layout description (Codec.decodeLayout) does not recover the "
+                         "triangle from the file to_binary wrote", case, {"file": B.hex() if len(B) < 100000 else f"{len(B)} bytes"})
         for name, d in variants:
             if d[0] == "err":
                 ctx.fail(f"{name} raised on a file written by to_binary", case, {"error": d[1]})
